@@ -1386,6 +1386,43 @@ def relations(what, spec):
 # failing-input search (real code only, judged by the property text)
 # ---------------------------------------------------------------------------
 
+def weak_coupling_spec(n=3, order=2):
+    """forced: a commuting ZZ chain whose bonds carry Schmidt values far below 1e-6 (coupling 2e-5)
+    at a tight truncation (epsrel 1e-12); adjacent pairs and the whole chain are recorded"""
+    z = np.diag([1.0, -1.0]).astype(complex)
+    sp = {"dims": [2] * n, "site_h": [enc(0.3 * (j + 1) * z) for j in range(n)],
+          "site_diss": [[] for _ in range(n)],
+          "nn_h": [[[enc(2e-5 * z), enc(z)]] for _ in range(n - 1)], "nn_diss": [[] for _ in range(n - 1)],
+          "rho0": [enc(np.array([[0.5, 0.35 - 0.2j * (j + 1) / n], [0.35 + 0.2j * (j + 1) / n, 0.5]]))
+                   for j in range(n)],
+          "pts": [None] * n, "order": order, "dt": 0.2, "epsrel": 1e-12, "steps": 3,
+          "sites": list(range(n)) + [[i, i + 1] for i in range(n - 1)] + [list(range(n))],
+          "controls": [], "kind": "commuting", "homogeneous": False, "site_terms": True}
+    return sp
+
+
+def weak_coupling(res):
+    """always run: connected correlations of a weakly coupled chain against the propagator of the full
+    Liouvillian to 1e-10 (every kept Schmidt value must be inverted exactly)"""
+    for n, order in ((3, 2), (4, 1)):
+        spec = weak_coupling_spec(n, order)
+        real = run_real(spec)
+        b = build(spec)
+        ref = dense_states(b, spec)
+        worst, where = 0.0, None
+        for key, states in real["dyn"].items():
+            keep = [int(x) for x in key.split(",")]
+            err = max(float(np.abs(st - reduce_dense(v, spec["dims"], keep)).max()) for st, v in zip(states, ref))
+            if err > worst:
+                worst, where = err, keep
+        res.case("weak-coupling:n=%d:order=%d" % (n, order), True, {"max_abs_difference": worst})
+        res.count("weak-coupling chain")
+        if worst > 1e-10:
+            res.fail("weak coupling (2e-5), epsrel=1e-12, n=%d order=%d: sites %s differ from the propagator "
+                     "of the full Liouvillian" % (n, order, where),
+                     {"oracle": "weak-coupling", "spec": spec, "sites": where, "max_abs_difference": worst})
+
+
 def search(res, rng=None):
     rng = rng or random.Random(res.seed + 1)
     tempo = {"kind": "tempo", "alpha": 0.08, "axis": "z"}
@@ -1554,4 +1591,5 @@ def run(tier, seed, replay):
             res.notes.append("correspondence skipped: generated model unavailable")
     except fw.Infra as e:
         res.oblige("correspondence run", False, str(e))
+    weak_coupling(res)
     return fw.finish(res, search)
